@@ -121,3 +121,42 @@ Example unit_change_through_windows_nonvacuous :
   | _, _ => False
   end.
 Proof. vm_compute. repeat split; reflexivity. Qed.
+
+(* ---------- DeltaChange: the loop runs over obs and the output follows obs ---------- *)
+Definition W_dc (dt : string) := fun o h f => unwrap (dc_apply_on_window dt o h f).
+
+Lemma W_dc_add_rel a b : 0 < a -> forall o o' h h' f f', o <> [] -> h <> [] -> f <> [] -> ARL a b o o' -> ARL a b h h' -> ARL a b f f' ->
+  ARL a b (W_dc "additive" o h f) (W_dc "additive" o' h' f').
+Proof.
+  intros Ha o o' h h' f f' No Nh Nf Ho Hh Hf. unfold W_dc, dc_apply_on_window. cbn [String.eqb Ascii.eqb Bool.eqb unwrap]. cbv zeta.
+  apply (ARL_map a b); [exact Ho|]. intros x x' _ Hx.
+  pose proof (qmean_rel a b f f' Hf Nf) as M1. pose proof (qmean_rel a b h h' Hh Nh) as M2. unfold AR in *. rewrite Hx, M1, M2. ring.
+Qed.
+
+Theorem dc_apply_location_unit_change a b : 0 < a -> forall L S dobs dhist dfut obs hist fut obs' hist' fut',
+  windows_nonempty L S dobs dobs dhist dfut obs hist fut -> ARL a b obs obs' -> ARL a b hist hist' -> ARL a b fut fut' ->
+  same_in_other_unit a b (driver_dc Q L S dobs dhist dfut obs hist fut (W_dc "additive")) (driver_dc Q L S dobs dhist dfut obs' hist' fut' (W_dc "additive")).
+Proof.
+  intros Ha L S dobs dhist dfut obs hist fut obs' hist' fut' Hne Ho Hh Hf.
+  exact (driver_dc_rel (AR a b) (AR a b) (AR a b) (AR a b) (W_dc "additive") (W_dc "additive") (W_dc_add_rel a b Ha) L S dobs dhist dfut obs obs' hist hist' fut fut' Hne Ho Hh Hf).
+Qed.
+
+Lemma F2_map2 (R R' : Q -> Q -> Prop) (g g' : Q -> Q) l l' : Forall2 R l l' -> (forall x x', R x x' -> R' (g x) (g' x')) -> Forall2 R' (map g l) (map g' l').
+Proof. intros H Hg. induction H as [|x x' l l' Hx Hl IH]; cbn [map]; constructor; [apply Hg; exact Hx|exact IH]. Qed.
+
+Lemma W_dc_add_trend c o o' h h' f f' : o <> [] -> h <> [] -> f <> [] -> ARL 1 0 o o' -> ARL 1 0 h h' -> ARL 1 c f f' ->
+  ARL 1 c (W_dc "additive" o h f) (W_dc "additive" o' h' f').
+Proof.
+  intros No Nh Nf Ho Hh Hf. unfold W_dc, dc_apply_on_window. cbn [String.eqb Ascii.eqb Bool.eqb unwrap]. cbv zeta.
+  apply (F2_map2 (AR 1 0) (AR 1 c)); [exact Ho|]. intros x x' Hx.
+  pose proof (qmean_rel 1 c f f' Hf Nf) as M1. pose proof (qmean_rel 1 0 h h' Hh Nh) as M2. unfold AR in *. rewrite Hx, M1, M2. ring.
+Qed.
+
+(** C02 for DeltaChange through the windows: a constant added to cm_future is added to every output value *)
+Theorem dc_trend_preserved_through_windows c : forall L S dobs dhist dfut obs hist fut, windows_nonempty L S dobs dobs dhist dfut obs hist fut ->
+  same_in_other_unit 1 c (driver_dc Q L S dobs dhist dfut obs hist fut (W_dc "additive")) (driver_dc Q L S dobs dhist dfut obs hist (map (fun x => x + c) fut) (W_dc "additive")).
+Proof.
+  intros L S dobs dhist dfut obs hist fut Hne.
+  apply (driver_dc_rel (AR 1 0) (AR 1 0) (AR 1 c) (AR 1 c) (W_dc "additive") (W_dc "additive") (W_dc_add_trend c)); try assumption; try apply ARL_id.
+  clear. induction fut; constructor; [unfold AR; ring|assumption].
+Qed.
